@@ -1,6 +1,7 @@
 package main
 
 import (
+	"strconv"
 	"os"
 	"runtime/debug"
 	"fmt"
@@ -126,6 +127,7 @@ type Enc struct {
 	axiomsUsed  []string
 	specUsed    map[string]bool
 	foldDone    map[string]bool
+	sliceLit    map[string]int // named slices defined as (mkslice a off N cap) with a literal length N
 	lemmaDone   map[string]bool
 	lemmaSkipped map[string]string
 	defined     map[string]bool // constants that have a defining equation
@@ -1101,11 +1103,33 @@ func (e *Enc) noteRoot(name, sortS, t string) {
 		r := e.rootOf(t)
 		if r != app("rootid", t) {
 			e.rootMemo[name] = r
+			if strings.HasPrefix(t, "(emb ") || strings.HasPrefix(t, "(elem ") {
+				// a field or element lives in the allocation of its object: tell the solver too (it compares such
+				// addresses with references it only knows allocation bounds for)
+				e.assert(app("=", app("rootid", name), r))
+			}
 		}
 	case "Slice":
 		if strings.HasPrefix(t, "(mkslice ") {
 			a := splitArgs(t)
 			if len(a) == 5 {
+				if v, err := strconv.Atoi(a[3]); err == nil {
+					if e.sliceLit == nil {
+						e.sliceLit = map[string]int{}
+					}
+					e.sliceLit[name] = v
+				} else if strings.HasPrefix(a[3], "(- ") {
+					if p := splitArgs(a[3]); len(p) == 3 {
+						x, e1 := strconv.Atoi(p[1])
+						y, e2 := strconv.Atoi(p[2])
+						if e1 == nil && e2 == nil {
+							if e.sliceLit == nil {
+								e.sliceLit = map[string]int{}
+							}
+							e.sliceLit[name] = x - y
+						}
+					}
+				}
 				r := e.rootOf(a[1])
 				if r != app("rootid", a[1]) {
 					e.sliceRoot[name] = r
